@@ -13,6 +13,7 @@ import (
 
 	"github.com/q191201771/lal/pkg/base"
 	"github.com/q191201771/lal/pkg/sdp"
+	"github.com/q191201771/naza/pkg/nazaatomic"
 	"github.com/q191201771/naza/pkg/nazaerrors"
 	"github.com/q191201771/naza/pkg/nazanet"
 )
@@ -41,6 +42,7 @@ type PullSession struct {
 	baseInSession *BaseInSession
 
 	disposeOnce sync.Once
+	disposeFlag nazaatomic.Bool
 	waitChan    chan error
 }
 
@@ -217,6 +219,10 @@ func (session *PullSession) OnConnectResult() {
 // OnDescribeResponse callback by ClientCommandSession
 func (session *PullSession) OnDescribeResponse(sdpCtx sdp.LogicContext) {
 	session.onDescribeResponse()
+	// 回调中上层可能已经拒绝并销毁了这个session（比如拉流建立期间已经有其他输入流了），此时不能再把sdp交给上层
+	if session.disposeFlag.Load() {
+		return
+	}
 	session.baseInSession.InitWithSdp(sdpCtx)
 }
 
@@ -254,6 +260,7 @@ func (session *PullSession) WriteInterleavedPacket(packet []byte, channel int) e
 func (session *PullSession) dispose(err error) error {
 	var retErr error
 	session.disposeOnce.Do(func() {
+		session.disposeFlag.Store(true)
 		Log.Infof("[%s] lifecycle dispose rtsp PullSession. session=%p", session.UniqueKey(), session)
 		e1 := session.cmdSession.Dispose()
 		e2 := session.baseInSession.Dispose()
